@@ -34,6 +34,13 @@ impl<S: BitmapSlice + Send + Sync> PassthroughFs<S> {
         if !is_safe_inode(data.mode) {
             Err(ebadf())
         } else {
+            // A truncating open changes the size of any non-empty file.
+            if self.seal_size.load(Ordering::Relaxed)
+                && flags & libc::O_TRUNC != 0
+                && data.handle.stat()?.st_size != 0
+            {
+                return Err(eperm());
+            }
             let mut new_flags = self.get_writeback_open_flags(flags);
             if !self.cfg.allow_direct_io && flags & libc::O_DIRECT != 0 {
                 new_flags &= !libc::O_DIRECT;
